@@ -24,9 +24,30 @@ func lruFieldOf(info *types.Info, e ast.Expr) string {
 	}
 	f := fieldOf(info, sel)
 	if strings.HasPrefix(f, "disk.SizedLRU.") {
+		// the recency list and the index map are recognised by their types, whatever they are called
+		if s := info.Selections[sel]; s != nil {
+			ts := s.Obj().Type().String()
+			switch {
+			case ts == "*container/list.List":
+				return "ll"
+			case strings.HasPrefix(ts, "map[") && strings.HasSuffix(ts, "]*container/list.Element"):
+				return "cache"
+			}
+		}
 		return strings.TrimPrefix(f, "disk.SizedLRU.")
 	}
 	return ""
+}
+
+// sumLargerKey returns the key of the function playing the role of sumLargerThan.
+func sumLargerKey(p *Prog) string {
+	canonPred(p, "x")
+	for k, v := range p.predAlias {
+		if v == "disk.sumLargerThan" {
+			return k
+		}
+	}
+	return "disk.sumLargerThan"
 }
 
 // enclosingFuncs maps every node position to the function declaration containing it.
@@ -266,7 +287,7 @@ func lruAccounting(c *Ctx) {
 		}
 	}
 	// sumLargerThan(a, b, c) == a+b > c || a+b <= 0
-	if fi := c.P.MustFunc(R, "R03d", "disk.sumLargerThan"); fi != nil {
+	if fi := c.P.MustFunc(R, "R03d", sumLargerKey(c.P)); fi != nil {
 		fl := c.P.FlowOf(fi)
 		a, b, cc := paramTerm(fl, 0), paramTerm(fl, 1), paramTerm(fl, 2)
 		var base *Base
@@ -280,32 +301,44 @@ func lruAccounting(c *Ctx) {
 					good = false
 					return
 				}
-				n++
-				res := base.Bool(x, ret.Results[0], s)
-				// find the sum variable
-				sumT := ""
-				for k, v := range s.m {
-					if strings.HasPrefix(k, "lin:") && linEq(v, map[string]int64{a: 1, b: 1}) {
-						sumT = k[4:]
+				judge := func(res string, s St) {
+					n++
+					// find the sum variable
+					sumT := ""
+					for k, v := range s.m {
+						if strings.HasPrefix(k, "lin:") && linEq(v, map[string]int64{a: 1, b: 1}) {
+							sumT = k[4:]
+						}
+					}
+					if sumT == "" {
+						good = false
+						return
+					}
+					gt, k1 := relLookup(s, cc, "<", sumT)
+					le0, k2 := relLookup(s, sumT, "<=", "#0")
+					switch res {
+					case "true":
+						if !((k1 && gt) || (k2 && le0)) {
+							good = false
+						}
+					case "false":
+						if !(k1 && !gt && k2 && !le0) {
+							good = false
+						}
+					default:
+						good = false
 					}
 				}
-				if sumT == "" {
-					good = false
+				if res := base.Bool(x, ret.Results[0], s); res == "true" || res == "false" {
+					judge(res, s)
 					return
 				}
-				gt, k1 := relLookup(s, cc, "<", sumT)
-				le0, k2 := relLookup(s, sumT, "<=", "#0")
-				switch res {
-				case "true":
-					if !((k1 && gt) || (k2 && le0)) {
-						good = false
-					}
-				case "false":
-					if !(k1 && !gt && k2 && !le0) {
-						good = false
-					}
-				default:
-					good = false
+				// a boolean expression is returned: judge it under each of its truth values
+				for _, st := range base.Refine(x, ret.Results[0], true, s) {
+					judge("true", st)
+				}
+				for _, st := range base.Refine(x, ret.Results[0], false, s) {
+					judge("false", st)
 				}
 			},
 		})
@@ -460,7 +493,7 @@ func (l *lruFlow) cond(x *Exec, cond ast.Expr, truth bool, s St) ([]St, bool) {
 			}
 			strict = e.Op == token.GTR || e.Op == token.LSS
 		case *ast.CallExpr:
-			if calleeKey(x.Fn.Info, e) == "disk.sumLargerThan" && len(e.Args) == 3 {
+			if canonPred(x.Fn.P, calleeKey(x.Fn.Info, e)) == "disk.sumLargerThan" && len(e.Args) == 3 {
 				lhs = l.base.LinEval(x, e.Args[0], s).Add(l.base.LinEval(x, e.Args[1], s), 1)
 				rhs, _ = l.base.Term(x, e.Args[2], s)
 				strict = true
